@@ -596,8 +596,9 @@ def blame(chain, ref, got, comp):
     return 'same-level' if gl == el else 'passthrough'
 
 
-def check_one(chain, b, xdev, comp, form='abs', group='chain', stats=None):
-    """Run the real routine on the materialised chain and judge it.  -> (violation|None, Ref)"""
+def check_one(chain, b, xdev, comp, form='abs', group='chain', stats=None, virtual=True):
+    """Run the real routine on the materialised chain and judge it.  -> (violation|None, Ref)
+    virtual=False: the caller has put a real mount point at level b; the DevMap stays off."""
     s, lvs, names = chain.s, chain.lvs, chain.names
     ref = reference(lvs, names, s, b, xdev, comp)
     accept = None
@@ -611,7 +612,7 @@ def check_one(chain, b, xdev, comp, form='abs', group='chain', stats=None):
                 accept = None
     path, cwd = start_path(chain, form)
     old = os.getcwd()
-    PROXY.inner = chain.dirs[b] if b is not None else None
+    PROXY.inner = chain.dirs[b] if (b is not None and virtual) else None
     try:
         if cwd:
             os.chdir(cwd)
